@@ -1,11 +1,28 @@
-// wfrun: generic interpreter of workflow specs against the real scipipe library (T3 prototype)
+// wfrun: generic interpreter of workflow specs against the real scipipe library (tie T3).
+//
+// usage: wfrun SPEC      (run in the scratch directory that is the workflow's working directory)
+//
+// Spec lines (strings are hex tokens, "-" is the empty string, "~" is "absent"):
+//   MAX n
+//   SRC name path*
+//   PSRC name val*
+//   S2S name upnode upport
+//   PROC name cores kind tok failkind failkey pattern nin (port nups (upnode upport)*)*
+//        npar (port (U upnode | V n val*))* nout (port pathpattern|~)* nextra extra* gofunc
+//   COMP kind name args...         (bundled components, see components.go)
+//   REC name upnode upport         (recorder: logs every received path, then forwards nothing)
+//   RUNTO idx*
+// After Run/RunTo returns it prints RUN-RETURNED and a snapshot of the directory.
 package main
 
 import (
 	"bufio"
 	"encoding/hex"
 	"fmt"
+	"io/ioutil"
 	"os"
+	"path/filepath"
+	"sort"
 	"strconv"
 	"strings"
 
@@ -14,17 +31,87 @@ import (
 )
 
 func unhex(s string) string {
-	if s == "-" {
+	if s == "-" || s == "~" {
 		return ""
 	}
 	b, err := hex.DecodeString(s)
 	if err != nil {
-		panic(err)
+		panic("bad hex token " + s)
 	}
 	return string(b)
 }
 
-type outer interface{ Out() *sp.OutPort }
+func hx(s string) string {
+	if s == "" {
+		return "-"
+	}
+	return hex.EncodeToString([]byte(s))
+}
+
+type node struct {
+	name  string
+	proc  *sp.Process
+	fsrc  *components.FileSource
+	psrc  *components.ParamSource
+	s2s   *components.StreamToSubStream
+	other sp.WorkflowProcess
+	outs  map[string]*sp.OutPort      // for components
+	pouts map[string]*sp.OutParamPort // for components
+}
+
+func (n *node) out(port string) *sp.OutPort {
+	switch {
+	case n.fsrc != nil:
+		return n.fsrc.Out()
+	case n.s2s != nil:
+		return n.s2s.OutSubStream()
+	case n.proc != nil:
+		return n.proc.Out(port)
+	}
+	if o, ok := n.outs[port]; ok {
+		return o
+	}
+	panic("no out-port " + port + " on node " + n.name)
+}
+
+func (n *node) pout(port string) *sp.OutParamPort {
+	if n.psrc != nil {
+		return n.psrc.Out()
+	}
+	if o, ok := n.pouts[port]; ok {
+		return o
+	}
+	panic("no param out-port " + port + " on node " + n.name)
+}
+
+type toks struct {
+	t []string
+	i int
+}
+
+func (k *toks) next() string { s := k.t[k.i]; k.i++; return s }
+func (k *toks) str() string  { return unhex(k.next()) }
+func (k *toks) int() int     { n, _ := strconv.Atoi(k.next()); return n }
+func (k *toks) more() bool   { return k.i < len(k.t) }
+
+var wf *sp.Workflow
+var nodes []*node
+
+func snapshot(tag string) {
+	filepath.Walk(".", func(p string, fi os.FileInfo, err error) error {
+		if err != nil || p == "." {
+			return nil
+		}
+		kind := "f"
+		if fi.IsDir() {
+			kind = "d"
+		} else if fi.Mode()&os.ModeNamedPipe != 0 {
+			kind = "p"
+		}
+		fmt.Printf("%s %s %s %d\n", tag, hx(p), kind, fi.Size())
+		return nil
+	})
+}
 
 func main() {
 	f, err := os.Open(os.Args[1])
@@ -32,127 +119,219 @@ func main() {
 		panic(err)
 	}
 	max := 4
-	var wf *sp.Workflow
-	type nd struct {
-		proc  *sp.Process
-		fsrc  *components.FileSource
-		psrc  *components.ParamSource
-	}
-	nodes := []nd{}
+	runto := []int{}
+	haveRunTo := false
 	sc := bufio.NewScanner(f)
 	sc.Buffer(make([]byte, 1<<20), 1<<26)
-	idx := 0
+	getWf := func() *sp.Workflow {
+		if wf == nil {
+			wf = sp.NewWorkflowCustomLogFile("wfrun", max, "wfrun.log")
+		}
+		return wf
+	}
 	for sc.Scan() {
-		toks := strings.Fields(sc.Text())
-		if len(toks) == 0 {
+		k := &toks{t: strings.Fields(sc.Text())}
+		if len(k.t) == 0 {
 			continue
 		}
-		pos := 1
-		next := func() string { t := toks[pos]; pos++; return t }
-		switch toks[0] {
+		switch k.next() {
 		case "MAX":
-			max, _ = strconv.Atoi(next())
-		case "SRC", "PSRC", "PROC":
-			if wf == nil {
-				wf = sp.NewWorkflowCustomLogFile("wfrun", max, "wfrun.log")
+			max = k.int()
+		case "SRC":
+			name := k.str()
+			paths := []string{}
+			for k.more() {
+				paths = append(paths, k.str())
 			}
-			name := "n" + strconv.Itoa(idx)
-			idx++
-			switch toks[0] {
-			case "SRC":
-				paths := []string{}
-				for pos < len(toks) {
-					paths = append(paths, unhex(next()))
+			nodes = append(nodes, &node{name: name, fsrc: components.NewFileSource(getWf(), name, paths...)})
+		case "PSRC":
+			name := k.str()
+			vals := []string{}
+			for k.more() {
+				vals = append(vals, k.str())
+			}
+			nodes = append(nodes, &node{name: name, psrc: components.NewParamSource(getWf(), name, vals...)})
+		case "S2S":
+			name := k.str()
+			up := k.int()
+			upport := k.str()
+			s := components.NewStreamToSubStream(getWf(), name)
+			s.In().From(nodes[up].out(upport))
+			nodes = append(nodes, &node{name: name, s2s: s})
+		case "PROC":
+			name := k.str()
+			cores := k.int()
+			_ = k.next() // kind (model only)
+			tok := k.str()
+			failkind := k.next()
+			failkey := k.str()
+			pattern := k.str()
+			p := getWf().NewProc(name, pattern)
+			p.CoresPerTask = cores
+			nin := k.int()
+			inPorts := []string{}
+			for i := 0; i < nin; i++ {
+				port := k.str()
+				inPorts = append(inPorts, port)
+				nups := k.int()
+				for j := 0; j < nups; j++ {
+					up := k.int()
+					upport := k.str()
+					p.In(port).From(nodes[up].out(upport))
 				}
-				nodes = append(nodes, nd{fsrc: components.NewFileSource(wf, name, paths...)})
-			case "PSRC":
-				vals := []string{}
-				for pos < len(toks) {
-					vals = append(vals, unhex(next()))
-				}
-				nodes = append(nodes, nd{psrc: components.NewParamSource(wf, name, vals...)})
-			case "PROC":
-				kind := next()
-				tok := unhex(next())
-				nin, _ := strconv.Atoi(next())
-				type inE struct{ port string; up int; upport string }
-				ins := []inE{}
-				for i := 0; i < nin; i++ {
-					p := unhex(next())
-					u, _ := strconv.Atoi(next())
-					ins = append(ins, inE{p, u, unhex(next())})
-				}
-				npar, _ := strconv.Atoi(next())
-				type parE struct{ port string; up int }
-				pars := []parE{}
-				for i := 0; i < npar; i++ {
-					p := unhex(next())
-					u, _ := strconv.Atoi(next())
-					pars = append(pars, parE{p, u})
-				}
-				nout, _ := strconv.Atoi(next())
-				type outE struct{ port, pat string }
-				outs := []outE{}
-				for i := 0; i < nout; i++ {
-					p := unhex(next())
-					outs = append(outs, outE{p, unhex(next())})
-				}
-				// render the command
-				inRefs := []string{}
-				for _, i := range ins {
-					inRefs = append(inRefs, "{i:"+i.port+"}")
-				}
-				var body string
-				switch kind {
-				case "write":
-					body = "echo " + tok
-				case "cat":
-					body = "cat " + strings.Join(inRefs, " ")
-					if len(inRefs) == 0 {
-						body = "printf ''"
+			}
+			npar := k.int()
+			parPorts := []string{}
+			for i := 0; i < npar; i++ {
+				port := k.str()
+				parPorts = append(parPorts, port)
+				switch k.next() {
+				case "U":
+					up := k.int()
+					p.InParam(port).From(nodes[up].pout("out"))
+				case "V":
+					n := k.int()
+					vals := []string{}
+					for j := 0; j < n; j++ {
+						vals = append(vals, k.str())
 					}
-				default:
-					body = "(cat " + strings.Join(inRefs, " ") + " < /dev/null; echo " + tok + ")"
+					p.InParam(port).FromStr(vals...)
 				}
-				cmds := []string{}
-				for _, o := range outs {
-					cmds = append(cmds, body+" > {o:"+o.port+"}")
+			}
+			nout := k.int()
+			outPorts := []string{}
+			for i := 0; i < nout; i++ {
+				port := k.str()
+				outPorts = append(outPorts, port)
+				pt := k.next()
+				if pt != "~" {
+					p.SetOut(port, unhex(pt))
 				}
-				if len(outs) == 0 {
-					cmds = append(cmds, body+" > /dev/null")
-				}
-				cmd := strings.Join(cmds, "; ")
-				// make sure every port exists even if the body does not mention it
-				extra := []string{}
-				if kind == "write" {
-					extra = append(extra, inRefs...)
-				}
-				for _, q := range pars {
-					extra = append(extra, "{p:"+q.port+"}")
-				}
-				if len(extra) > 0 {
-					cmd += " # " + strings.Join(extra, " ")
-				}
-				p := wf.NewProc(name, cmd)
-				for _, o := range outs {
-					p.SetOut(o.port, o.pat)
-				}
-				for _, i := range ins {
-					var op *sp.OutPort
-					if nodes[i.up].fsrc != nil {
-						op = nodes[i.up].fsrc.Out()
-					} else {
-						op = nodes[i.up].proc.Out(i.upport)
+			}
+			nextra := k.int()
+			for i := 0; i < nextra; i++ {
+				k.str()
+			}
+			gofunc := k.more() && k.int() == 1
+			if gofunc {
+				p.CustomExecute = func(t *sp.Task) {
+					key := name
+					data := []byte{}
+					for _, ip := range inPorts {
+						key += " " + t.InPath(ip)
+						data = append(data, t.InIP(ip).Read()...)
 					}
-					p.In(i.port).From(op)
+					line := tok
+					for _, pp := range parPorts {
+						key += " " + t.Param(pp)
+						line += " " + t.Param(pp)
+					}
+					data = append(data, []byte(line+"\n")...)
+					trace("S " + key)
+					fails := failkind != "none" && strings.Contains(key, failkey)
+					if fails && failkind == "before" {
+						t.Failf("custom function fails before writing")
+					}
+					for i, op := range outPorts {
+						if fails && failkind == "partial" {
+							t.OutIP(op).Write([]byte("PARTIAL"))
+							t.Failf("custom function fails after a partial write")
+						}
+						if fails && failkind == "omit" && i == len(outPorts)-1 {
+							continue
+						}
+						t.OutIP(op).Write(data)
+					}
+					if fails && failkind == "afterfull" {
+						t.Failf("custom function fails after writing everything")
+					}
+					trace("E " + key)
 				}
-				for _, q := range pars {
-					p.InParam(q.port).From(nodes[q.up].psrc.Out())
-				}
-				nodes = append(nodes, nd{proc: p})
+			}
+			nodes = append(nodes, &node{name: name, proc: p})
+		case "COMP":
+			nodes = append(nodes, mkComponent(getWf(), k))
+		case "REC":
+			name := k.str()
+			up := k.int()
+			upport := k.str()
+			r := newRecorder(getWf(), name)
+			r.InPort("in").From(nodes[up].out(upport))
+			nodes = append(nodes, &node{name: name, other: r})
+		case "PREC":
+			name := k.str()
+			up := k.int()
+			upport := k.str()
+			r := newRecorder(getWf(), name)
+			r.InParamPort("pin").From(nodes[up].pout(upport))
+			nodes = append(nodes, &node{name: name, other: r})
+		case "RUNTO":
+			haveRunTo = true
+			for k.more() {
+				runto = append(runto, k.int())
 			}
 		}
 	}
-	wf.Run()
+	if haveRunTo {
+		names := []string{}
+		for _, i := range runto {
+			names = append(names, nodes[i].name)
+		}
+		getWf().RunTo(names...)
+	} else {
+		getWf().Run()
+	}
 	fmt.Println("RUN-RETURNED")
+	snapshot("SNAP")
+	fmt.Println("SNAP-END")
+}
+
+func trace(line string) {
+	p := os.Getenv("VERIF_TRACE")
+	if p == "" {
+		return
+	}
+	f, err := os.OpenFile(p, os.O_APPEND|os.O_CREATE|os.O_WRONLY, 0644)
+	if err != nil {
+		return
+	}
+	fmt.Fprintf(f, "%s %d\n", line, nowNano())
+	f.Close()
+}
+
+// recorder: a sink-like component written against the public component API; it logs what it receives
+type recorder struct {
+	sp.BaseProcess
+}
+
+func newRecorder(wf *sp.Workflow, name string) *recorder {
+	r := &recorder{BaseProcess: sp.NewBaseProcess(wf, name)}
+	r.InitInPort(r, "in")
+	r.InitInParamPort(r, "pin")
+	r.InitOutPort(r, "done") // so that the recorder is never taken for the driver process
+	wf.AddProc(r)
+	return r
+}
+
+func (r *recorder) Ready() bool { return r.InPort("in").Ready() || r.InParamPort("pin").Ready() }
+
+func (r *recorder) Run() {
+	defer r.CloseOutPorts()
+	lines := []string{}
+	if r.InPort("in").Ready() {
+		for ip := range r.InPort("in").Chan {
+			tags := []string{}
+			for k, v := range ip.Tags() {
+				tags = append(tags, hx(k)+"="+hx(v))
+			}
+			sort.Strings(tags)
+			lines = append(lines, "IP "+hx(ip.Path())+" "+strings.Join(tags, ","))
+		}
+	}
+	if r.InParamPort("pin").Ready() {
+		for v := range r.InParamPort("pin").Chan {
+			lines = append(lines, "PARAM "+hx(v))
+		}
+	}
+	ioutil.WriteFile("REC."+r.Name(), []byte(strings.Join(lines, "\n")+"\n"), 0644)
 }
